@@ -713,14 +713,14 @@ theorem da_alloc (heap : Heap V) (op : DAHeap.Op V) :
 
 /-- ATTRIBUTE ACCESS MIRRORS ITEM ACCESS: `d.k = v` is `d[k] = v`, `del d.k` is `del d[k]`, and — for a name `k` that is
 not an attribute of the object's class (`shadowed`, the real hypothesis: python looks a name up on the class before it
-asks `__getattr__`) — `d.k` is `d[k]`: same result, same effect on the heap, except that a missing key is reported as
+asks `__getattr__`; names with a leading underscore are private instance attributes and never items) — `d.k` is `d[k]`: same result, same effect on the heap, except that a missing key is reported as
 `AttributeError` instead of `KeyError` (`asAttr`). -/
 theorem da_attr_mirrors_item (heap : Heap V) (h : Nat) (k : String) (v : V)
-    (hk : ∀ d, heap[h]? = some d → shadowed d.cls k = false) :
+    (hk : ∀ d, heap[h]? = some d → shadowed d.cls k = false) (hp : k.startsWith "_" = false) :
     DAHeap.step heap (.getAttr h k) = asAttr (DAHeap.step heap (.getItem h k)) ∧
     DAHeap.step heap (.setAttr h k v) = DAHeap.step heap (.setItem h k v) ∧
     DAHeap.step heap (.delAttr h k) = asAttr (DAHeap.step heap (.delItem h k)) := by
-  refine ⟨?_, rfl, ?_⟩
+  refine ⟨?_, by simp [DAHeap.step, hp], ?_⟩
   · simp only [DAHeap.step, bind, Except.bind, pure, Except.pure, deref]
     cases hh : heap[h]? with
     | none => rfl
@@ -845,7 +845,7 @@ example : call exD [] [("y", sumFn ["x"] 0), ("x", sumFn ["a", "zz"] 0)] = .erro
 
 /-- a dictattr history: operators allocate, in-place writes hit their target only -/
 private def vi (n : Int) : Val := .cell (.int n)
-example : DAHeap.run [.new 2 [("a", vi 1), ("b", vi 2)], .copy 0, .setAttr 1 "c" (vi 3), .subK 0 "a", .delItem 1 "a",
+example : DAHeap.run [.new 2 [("a", vi 1), ("b", vi 2)], .copy 0, .setItem 1 "c" (vi 3), .subK 0 "a", .delItem 1 "a",
       .delAttr 0 "zz", .addH 2 1] =
     [⟨2, [("a", vi 1), ("b", vi 2)]⟩, ⟨2, [("b", vi 2), ("c", vi 3)]⟩, ⟨2, [("b", vi 2)]⟩,
      ⟨2, [("b", vi 2), ("c", vi 3)]⟩] := rfl
